@@ -85,6 +85,24 @@ def apalache_inductive(run):
     return out
 
 
+def tlaps_proof(run):
+    """spec/TFBIndProof.tla: the same three facts plus `Spec => []Delivered`, proved by tlapm (SMT / PTL back ends), from scratch."""
+    import shutil as _sh, subprocess as _sp
+    exe = _sh.which("tlapm")
+    if not exe:
+        raise ToolError("tlapm is not on PATH")
+    t0 = time.time()
+    try:
+        p = _sp.run([exe, "--threads", "6", "--cache-dir", os.path.join(run.wd, "tlaps_cache"), "TFBIndProof.tla"], cwd=SPEC, stdout=_sp.PIPE, stderr=_sp.STDOUT, text=True, timeout=1500)
+    except _sp.TimeoutExpired:
+        raise ToolError("tlapm timed out on TFBIndProof.tla")
+    m = re.search(r"All (\d+) obligations? proved", p.stdout)
+    if not m:
+        # an unproved obligation is a defect of the abstract model or of the proof script, never of the code
+        raise ToolError("tlapm did not prove TFBIndProof.tla:\n" + p.stdout[-1500:])
+    return {"module": "TFBIndProof", "obligations_proved": int(m.group(1)), "wall_s": round(time.time() - t0, 1)}
+
+
 def main():
     run = Run("C12")
     t = "thorough" if run.thorough else "quick"
@@ -100,6 +118,7 @@ def main():
     tlc_must_pass(r, "TempFileBuffer refines TFBInd (and satisfies its inductive invariant)")
     run.add_tlc("refines_unbounded_abstraction", r)
     run.cov["apalache_inductive_invariant"] = apalache_inductive(run)
+    run.cov["tlaps_proof"] = tlaps_proof(run)
     # 2. emission of all schedules
     r = tlc("MC_TFB", "MC_TFB_%s.cfg" % t, os.path.join(run.wd, "emit"), workers=8, timeout=1500, coverage=True)
     tlc_must_pass(r, "TempFileBuffer emission")
